@@ -23,11 +23,13 @@ import (
 	"sort"
 	"strings"
 	"sync"
+	"syscall"
 	"time"
 
 	"github.com/sheerbytes/sheerbytes/internal/quictransport"
 	"github.com/sheerbytes/sheerbytes/internal/transfer"
 	"github.com/sheerbytes/sheerbytes/internal/transferquic"
+	"github.com/sheerbytes/sheerbytes/internal/verifhook"
 	"github.com/sheerbytes/sheerbytes/internal/zzverif/netsim"
 	"github.com/sheerbytes/sheerbytes/pkg/manifest"
 )
@@ -84,6 +86,13 @@ type Case struct {
 	Vanish    string      `json:"vanish"`   // rel path of a source file to delete after the scan
 	Obstruct  string      `json:"obstruct"` // rel path in the out dir to pre-create as a directory
 	CloseLike bool        `json:"close_like_app"` // each side closes its conn (code 0) when its function returns, as the app does
+	SrcDir    string      `json:"src_dir"`        // use this existing source tree (not created, not removed)
+	// crash-point runs (executed in a child process)
+	KillPoint  string `json:"kill_point"`   // verifhook point name
+	KillAt     int    `json:"kill_at"`      // SIGKILL self at the k-th hit (1-based); 0 = never
+	FlushFirst bool   `json:"flush_first"`  // call FlushAllFlushers() at that hit before dying (the flusher fires exactly there)
+	FlushAtAll string `json:"flush_at_all"` // call FlushAllFlushers() at EVERY hit of this point (flusher interleaving)
+	CountHits  bool   `json:"count_hits"`   // report how often each point was hit
 }
 
 type Result struct {
@@ -101,6 +110,7 @@ type Result struct {
 	Stuck     []string `json:"stuck,omitempty"`
 	Note      string   `json:"note,omitempty"`
 	OutDir    string   `json:"out_dir,omitempty"`
+	Hits      map[string]int `json:"hits,omitempty"`
 }
 
 func splitmix(s *uint64) uint64 {
@@ -193,6 +203,18 @@ func diffTrees(a, b map[string]entry) []string {
 }
 
 func main() {
+	if len(os.Args) > 1 && os.Args[1] == "-child" {
+		var c Case
+		dec := json.NewDecoder(os.Stdin)
+		if err := dec.Decode(&c); err != nil {
+			fmt.Println(`{"note":"bad-case"}`)
+			return
+		}
+		r := runCase(c)
+		b, _ := json.Marshal(r)
+		fmt.Println(string(b))
+		return
+	}
 	in := bufio.NewReaderSize(os.Stdin, 1<<24)
 	out := bufio.NewWriter(os.Stdout)
 	defer out.Flush()
@@ -204,7 +226,17 @@ func main() {
 			}
 			json.Unmarshal(line, &probe)
 			var c Case
-			if probe.Mode == "hostile-send" {
+			if probe.Mode == "crash" {
+				var cc CrashCase
+				if jerr := json.Unmarshal(line, &cc); jerr != nil {
+					fmt.Fprintln(out, `{"name":"?","note":"bad-case"}`)
+				} else {
+					r := runCrash(cc)
+					b, _ := json.Marshal(r)
+					out.Write(b)
+					out.WriteByte('\n')
+				}
+			} else if probe.Mode == "hostile-send" {
 				var hc HostileSendCase
 				if jerr := json.Unmarshal(line, &hc); jerr != nil {
 					fmt.Fprintln(out, `{"name":"?","note":"bad-case"}`)
@@ -396,16 +428,21 @@ func runCase(c Case) (res Result) {
 	}
 	defer os.RemoveAll(tmp)
 	src := filepath.Join(tmp, "src", "tree")
-	os.MkdirAll(src, 0o755)
-	for _, d := range c.Dirs {
-		os.MkdirAll(filepath.Join(src, filepath.FromSlash(d)), 0o755)
+	if c.SrcDir != "" {
+		src = c.SrcDir
 	}
-	for _, f := range c.Files {
-		p := filepath.Join(src, filepath.FromSlash(relOf(f)))
-		os.MkdirAll(filepath.Dir(p), 0o755)
-		if err := os.WriteFile(p, content(f.S, f.N), 0o644); err != nil {
-			res.Note = "mk:" + err.Error()
-			return
+	os.MkdirAll(src, 0o755)
+	if c.SrcDir == "" {
+		for _, d := range c.Dirs {
+			os.MkdirAll(filepath.Join(src, filepath.FromSlash(d)), 0o755)
+		}
+		for _, f := range c.Files {
+			p := filepath.Join(src, filepath.FromSlash(relOf(f)))
+			os.MkdirAll(filepath.Dir(p), 0o755)
+			if err := os.WriteFile(p, content(f.S, f.N), 0o644); err != nil {
+				res.Note = "mk:" + err.Error()
+				return
+			}
 		}
 	}
 	var m manifest.Manifest
@@ -551,6 +588,27 @@ func runCase(c Case) (res Result) {
 	if timeout == 0 {
 		timeout = 8 * time.Second
 	}
+	hits := map[string]int{}
+	var hitMu sync.Mutex
+	if c.KillPoint != "" || c.FlushAtAll != "" || c.CountHits {
+		verifhook.Set(func(name string, args []uint64, sarg string) {
+			hitMu.Lock()
+			hits[name]++
+			n := hits[name]
+			hitMu.Unlock()
+			if c.FlushAtAll != "" && name == c.FlushAtAll {
+				transfer.FlushAllFlushers()
+			}
+			if c.KillAt > 0 && name == c.KillPoint && n == c.KillAt {
+				if c.FlushFirst {
+					transfer.FlushAllFlushers()
+				}
+				syscall.Kill(os.Getpid(), syscall.SIGKILL)
+				select {}
+			}
+		})
+		defer verifhook.Set(nil)
+	}
 	sctx, scancel := context.WithCancel(context.Background())
 	rctx, rcancel := context.WithCancel(context.Background())
 	defer scancel()
@@ -616,6 +674,14 @@ done:
 	res.Equal = len(res.Diff) == 0
 	if c.KeepOut != "" {
 		res.OutDir = outBase
+	}
+	if c.CountHits {
+		hitMu.Lock()
+		res.Hits = map[string]int{}
+		for k, v := range hits {
+			res.Hits[k] = v
+		}
+		hitMu.Unlock()
 	}
 	return
 }
